@@ -301,7 +301,9 @@ impl Seq {
         }
         if tie_resync && bad.is_none() { self.h.count("deadline_tie_dont_care", 1); self.resync(); return; }
         if let Some((kind, detail)) = bad {
-            self.h.violate(format!("{}/dump/{}/{}/{}", self.prop, verb, flags, kind), format!("after `{}` (key type before: {}): {}", show_cmd(args), ktype, detail));
+            // a broken skip list stays broken: attribute it to the structure, not to whichever verb came last
+            let class = if kind == "skiplist-invariant" { format!("{}/skiplist-invariant", self.prop) } else { format!("{}/dump/{}/{}/{}", self.prop, verb, flags, kind) };
+            self.h.violate(class, format!("after `{}` (key type before: {}): {}", show_cmd(args), ktype, detail));
             self.resync();
         }
     }
